@@ -339,6 +339,13 @@ def module_spec(P, name, sch, defs, probe_disc, path):
                 fails.append(("C09/module/definition-class-missing",
                               "definition %r is reachable from the main schema but the module defines no Structure "
                               "class for it" % dn))
+        if "description" not in explained:
+            for cn, owner in [(name, inp)] + [(dn, inp_defs[dn]) for dn in reach]:
+                if isinstance(owner.get("description"), str) and is_structure(ns.get(cn)):
+                    doc = ns[cn].__doc__
+                    if doc is None or doc.strip(" \n") != owner["description"].strip(" \n"):
+                        fails.append(("C09/module/doc/unexplained",
+                                      "docstring %r of class %s is not the description %r" % (doc, cn, owner["description"])))
         b = back_of(ns, name)
         if b[0] == "raise":
             if not explained:
@@ -434,7 +441,10 @@ def leaf_def(rnd, P, hotness):
         f = P.gen_field(rnd, 1, {}, hotness, False, prop=False)
         f.pop("default", None)
         props[n] = f
-    return {"type": "object", "properties": props, "required": sorted(props), "additionalProperties": True}
+    d = {"type": "object", "properties": props, "required": sorted(props), "additionalProperties": True}
+    if rnd.random() < 0.15:
+        d["description"] = P.clean_json_str(P.gen_payload(rnd, hotness))
+    return d
 
 
 def lattice(P):
